@@ -159,23 +159,34 @@ AMOUNT_RESOLVERS["holding"] = _holding
 
 def trade_amount(sim, m, name, side, spec):
     """{"abs": x} | {"depth": frac} of the displayed depth on that side | {"level": j, "x": frac} of level j's size
-    | {"holding": frac} of the held amount of that instrument"""
-    if "abs" in spec:
-        return D(spec["abs"])
-    if "holding" in spec:
-        held = Decimal(m.positions[name].amount) if name in m.positions else Decimal(0)
-        return held * D(spec["holding"]) if held > 0 else D(spec.get("else", "1"))
+    | {"holding": frac} of the held amount of that instrument; optional caps "max_depth": frac of displayed depth,
+    "max_level": j (size of displayed level j).  Level indices address the displayed list (mod its length)."""
     book = visible_book(m, name, side) or []
-    if "depth" in spec:
-        depth = sum((Decimal(str(x[1])) for x in book), Decimal(0))
-        return depth * D(spec["depth"]) if depth > 0 else D(spec.get("else", "1"))
-    if "level" in spec:
-        live = [x for x in book if x[1] > 0]
-        if not live:
-            return D(spec.get("else", "1"))
-        lv = live[int(spec["level"]) % len(live)]
-        return Decimal(str(lv[1])) * D(spec.get("x", "1"))
-    raise HarnessError(f"bad trade amount {spec}")
+    depth = sum((Decimal(str(x[1])) for x in book), Decimal(0))
+    if "abs" in spec:
+        amt = D(spec["abs"])
+    elif "holding" in spec:
+        held = Decimal(m.positions[name].amount) if name in m.positions else Decimal(0)
+        amt = held * D(spec["holding"]) if held > 0 else D(spec.get("else", "1"))
+    elif "depth" in spec:
+        amt = depth * D(spec["depth"]) if depth > 0 else D(spec.get("else", "1"))
+    elif "level" in spec:
+        if not book:
+            amt = D(spec.get("else", "1"))
+        else:
+            lv = book[int(spec["level"]) % len(book)]
+            amt = Decimal(str(lv[1])) * D(spec.get("x", "1"))
+            if amt <= 0:
+                amt = D(spec.get("else", "1"))
+    else:
+        raise HarnessError(f"bad trade amount {spec}")
+    if "max_depth" in spec and depth > 0:
+        amt = min(amt, depth * D(spec["max_depth"]))
+    if "max_level" in spec and book:
+        lv = book[int(spec["max_level"]) % len(book)]
+        if lv[1] > 0:
+            amt = min(amt, Decimal(str(lv[1])))
+    return amt
 
 
 def level_price(m, name, side, spec):
@@ -286,6 +297,13 @@ def _dec(x, places):
 def _strip(s):
     s = s.rstrip("0").rstrip(".") if "." in s else s
     return s if s not in ("", "-0") else "0"
+
+
+def _flt(s):
+    """a float literal as pandas/json would write a float column value (never a bare integer literal, which would turn
+    an all-integer column into int64 - a dtype the real files do not have for prices and greeks)"""
+    s = _strip(s)
+    return s if "." in s else s + ".0"
 
 
 def hour_times(start, n):
@@ -419,14 +437,14 @@ def gen_deribit_market(rng, name, n, prices, **opts):
                 mark = rng.choice([0.0, 0.0001, 0.0003, 0.0009, 0.00115])
             else:
                 mark = intr + rng.uniform(0.0005, 0.06)
-            mark_s = _strip(_dec(mark, mark_places))
+            mark_s = _flt(_dec(mark, mark_places))
             n_asks = rng.choice([0] + list(range(1, max_levels + 1)) * 3) if rng.random() < 0.3 else rng.randint(1, max_levels)
             n_bids = rng.choice([0] + list(range(1, max_levels + 1)) * 3) if rng.random() < 0.3 else rng.randint(1, max_levels)
             asks, bids = gen_book(rng, float(mark_s), tick, size_kind, n_asks, n_bids, places)
             state = "closed" if rng.random() < opts.get("closed_state_prob", 0.03) else "open"
             rows[nm] = {
                 "state": state, "mark": mark_s, "underlying": _dec(s, 2),
-                "delta": _strip(_dec(rng.uniform(-1, 1), 5)), "gamma": _strip(_dec(rng.uniform(0, 0.01), 5)),
+                "delta": _flt(_dec(rng.uniform(-1, 1), 5)), "gamma": _flt(_dec(rng.uniform(0, 0.01), 5)),
                 "asks": asks, "bids": bids,
             }
         hrs.append({"t": str(t), "rows": rows})
